@@ -7,6 +7,8 @@ NOTE = ("verdicts are z3 4.8.12 / z3 5.1.0 / cvc5 1.0 answers over the symgo SSA
         "every bound (lengths, unwinding, allocation, shapes) is listed per obligation in the evidence and checked, not assumed; "
         "translator validated per run by replaying reachability witnesses natively and in concrete mode; ")
 CLAIMED = {
+ "C14": ("tombstone safety of value-log truncation: for every history of n transactions whose values landed in any value log at any offsets (out of id order, empty first values), and every cut point, TruncateUptoTx never discards beyond the first value of a transaction at or after the cut, and never discards with embedded values",
+         "the transaction table is served by a stub of readTxOffsetAt under the stated placement model; chunk deletion is covered by C17's discard step; truncation racing with writers, restart and the SQL catalog copy are outside the claim", "DESIGN.md §4 C14"),
  "C02": ("one inductive step of the commit frontier from an arbitrary valid pre-state: the precommit ring buffer is a FIFO; mayCommit writes commit-log entries only at committedTxID*entrySize and moves the frontier forward exactly to the allowance; DiscardPrecommittedTxsSince never touches committed ids, the commit log or the tx log; AllowCommitUpto is monotone and bounded by the precommit frontier",
          "sequential single steps only: no interleavings of concurrent committers, no restart, no chunk rotation; logs are in-memory appendables; watcher hubs and the hash tree are recorder stubs; the Alh chaining itself is decided under C01/C09", "DESIGN.md §4 C02"),
  "C18": ("the permission decision kernel: getDBFromCtx, HasPermissionForMethod, IsMaintenanceMethod and User.WhichPermission executed for every method name of the permission table crossed with every option combination, database selection, sysadmin flag and every 32-bit permission code: a database is handed out only when the reviewed classification allows it",
